@@ -265,8 +265,8 @@ func (r *Run) Finish() int {
 	cov["distinct_nontrivial"] = len(r.distinct)
 	cov["rule"] = r.Rule
 	samples := r.samples
-	if samples == nil {
-		samples = []interface{}{}
+	if len(samples) == 0 {
+		samples = []interface{}{map[string]interface{}{"note": "no case was completed far enough to be sampled in this run"}}
 	}
 	cov["samples"] = samples
 	unlisted := 0
